@@ -288,6 +288,13 @@ class Interp:
     def s_Global(self, n, st, fx):
         yield None, st
 
+    def s_Nonlocal(self, n, st, fx):
+        yield None, st
+
+    def s_ClassDef(self, n, st, fx):
+        st.env[n.name] = ("unk", "localclass:" + n.name)
+        yield None, st
+
     def s_Expr(self, n, st, fx):
         if isinstance(n.value, ast.Constant):
             yield None, st
